@@ -35,10 +35,20 @@ func main() {
 			"or had a waiter give up before a batch was delivered, or closed while the producer was ahead; distinct = by (parameters, schedule signature).")
 		r.Assume("age of a batch is measured from a stamp taken before the source hands the oldest item over to a stamp taken after the consumer received the batch (an upper bound of the true age); only 'measured age >= maxWait' is judged")
 		r.Assume("'handed to a waiting consumer rather than held back' is decided as: with maxWait <= 5 ms and a source that stalls forever, a consumer with a live context must receive the pending items; a consumer parked forever is a STUCK verdict from the goroutine dump (two dumps 300 ms apart), never a timeout")
+		if r.VariantHas("aim") {
+			r.Cases("aim", 32, 32, func(c *vkit.Case) { aim(c) })
+			r.Floor("aim cycles", r.Table("aim", "cycles (fill aimed at timer expiry, then under-filled victim batch judged)"), 300000)
+			return
+		}
 		n := r.Scale(1400, 30000)
 		r.Cases("run", n, 1, func(c *vkit.Case) { runCase(c, false) })
 		r.Cases("regress", r.Scale(60, 600), 1, func(c *vkit.Case) { runCase(c, true) })
 		r.Cases("timer-edge", r.Scale(240, 4000), 1, func(c *vkit.Case) { timerEdge(c) })
+		aimWorkers := 32
+		r.Cases("aim", aimWorkers, aimWorkers, func(c *vkit.Case) { aim(c) })
+		r.Cases("poison", r.Scale(40, 600), 1, func(c *vkit.Case) { poison(c) })
+		r.Floor("aim cycles", r.Table("aim", "cycles (fill aimed at timer expiry, then under-filled victim batch judged)"), 10000)
+		r.Floor("poison rounds", r.Table("poison", "rounds"), 30)
 		// (how many waiters arrived while full() was running depends on machine load: recorded, not a floor)
 		r.Floor("timer-edge trials", r.Table("timer-edge", "trials"), 100)
 		r.Floor("under-filled batches delivered before the source ended (age judged)", r.Table("batches", "under-filled before end (age judged)"), 100)
